@@ -265,6 +265,19 @@ class Machine(object):
             raise Unsupported("branch on symbolic value %r" % (term,), where)
         return self.script.decide(term, universe)
 
+    def ctor_of(self, path):
+        if not path:
+            return None
+        if path in self.facts.adts and self.facts.adts[path]["kind"] == "struct":
+            return (path, path.split("::")[-1])
+        parent, _, name = path.rpartition("::")
+        a = self.facts.adts.get(parent)
+        if a is not None and any(v["name"] == name for v in a["variants"]):
+            return (parent, name)
+        if parent in STD_VARIANTS and name in STD_VARIANTS[parent]:
+            return (parent, name)
+        return None
+
     def variants_of(self, adt):
         a = self.facts.adts.get(adt)
         if a is not None:
@@ -388,6 +401,10 @@ class Machine(object):
         for p in (r, d):
             if p and p in self.facts.bodies and self.facts.bodies[p].get("thir"):
                 return self.call_path(p, args, callee)
+        # tuple-variant / tuple-struct constructors used as functions
+        ctor = self.ctor_of(d)
+        if ctor is not None:
+            return Adt(ctor[0], ctor[1], {str(i): a for i, a in enumerate(args)})
         # dynamic dispatch of an unresolved crate-local trait method on a concrete receiver
         if tr and not r and args:
             recv = args[0]
